@@ -162,7 +162,7 @@ PROPS = {
         assumptions=["signature_verifies assumes verify (publicKey seed) m (sign seed m) for the crypto record"],
     ),
     "C10": dict(
-        theorems=["HC.C10.fault_is_crash", "HC.C10.fault_prefix_step", "HC.C10.fault_before_any", "HC.C10.no_fault_complete", "HC.C10.fault_recovers",
+        theorems=["HC.C10.fault_is_crash", "HC.C10.fault_prefix_step", "HC.C10.fault_before_any", "HC.C10.no_fault_complete", "HC.C10.fault_recovers", "HC.C10.replica_fault_recovers",
                   "HC.C02.reopen_exact", "HC.C02.flush_atomic"],
         bridge_modules=["HC.Bridge.Oplog"], bridging=OPLOG_BRIDGE,
         runs=_c10_runs,
